@@ -26,6 +26,29 @@ for f in sorted(glob.glob(os.path.join(root, 'design.d', 'C*.md'))):
     body = re.sub(r'^# ', '### ', body, flags=re.M)
     body = re.sub(r'^## ', '#### ', body, flags=re.M)
     parts.append(body + '\n')
+# seeded defects
+parts.append('\n## Appendix E. Independently seeded defects (generated from seeded/*/meta.json)\n')
+parts.append('Each change was written by a fresh sub-agent that saw only the property text and a scratch worktree, '
+             'confirmed by `tools/verify_seeded.sh` (demonstration fails with / passes without the change; the pinned baseline packages still pass with it), '
+             'and then run against the property\'s check through `tools/with_patch.sh` (build overlay; /repo is not touched, because other builders were using /repo concurrently). '
+             '"strengthened" = the first run missed it and the check was extended; the note says how.\n')
+parts.append('| seeded change | property | what it does | needs | outcome |')
+parts.append('|---|---|---|---|---|')
+rows_caught = rows_str = rows_missed = 0
+for f in sorted(glob.glob(os.path.join(root, 'seeded', '*', 'meta.json'))):
+    m = json.load(open(f)); v = m.get('verified', {})
+    name = os.path.basename(os.path.dirname(f))
+    if not v:
+        outcome = 'not yet verified'
+    elif v.get('caught') and v.get('caught_first_run') is False:
+        outcome = 'caught after strengthening: ' + v.get('strengthening', '')[:400]; rows_str += 1
+    elif v.get('caught'):
+        outcome = 'caught (exit 1)' + (' — ' + v['note'][:300] if v.get('note') else ''); rows_caught += 1
+    else:
+        outcome = '**not caught by the check** — ' + v.get('note', '')[:600]; rows_missed += 1
+    cell = lambda x: str(x).replace('|', '/').replace('\n', ' ')
+    parts.append(f"| `{name}` | {m.get('property')} | {cell(m.get('summary',''))[:300]} | {cell(m.get('needs',''))[:300]} | {cell(outcome)} |")
+parts.append(f'\nTotals: {rows_caught} caught on the first run, {rows_str} caught after strengthening the check, {rows_missed} not caught by a registered check.\n')
 gen = BEGIN + '\n' + '\n'.join(parts) + '\n' + END
 if BEGIN in s:
     s = s[:s.index(BEGIN)] + gen + s[s.index(END) + len(END):]
